@@ -91,6 +91,17 @@ func (db *DB) repairCompactions() error {
 		absReplacementPath := filepath.Join(db.basePath, meta.ReplacementPath)
 
 		log.Printf("finishing compaction in %s into %s", absWritePath, absReplacementPath)
+		// all inputs have to be gone before the rename: the rename removes the successful compaction from the view of the
+		// next recovery, half removed inputs that are left behind afterwards would never be cleaned up again
+		for _, sstablePath := range meta.SstablePaths {
+			if sstablePath != meta.ReplacementPath {
+				err := os.RemoveAll(filepath.Join(db.basePath, sstablePath))
+				if err != nil {
+					return err
+				}
+			}
+		}
+
 		err := os.RemoveAll(absReplacementPath)
 		if err != nil {
 			return err
@@ -99,15 +110,6 @@ func (db *DB) repairCompactions() error {
 		err = os.Rename(absWritePath, absReplacementPath)
 		if err != nil {
 			return err
-		}
-
-		for _, sstablePath := range meta.SstablePaths {
-			if sstablePath != meta.ReplacementPath {
-				err := os.RemoveAll(filepath.Join(db.basePath, sstablePath))
-				if err != nil {
-					return err
-				}
-			}
 		}
 	}
 
